@@ -42,33 +42,47 @@ theorem hdr_fields (n t c : Nat) (rest : Bytes) :
   · simp [bs, h4, h8, h4c]; omega
 
 /-- `decode` on bytes that start with a complete, in-range entry header -/
-theorem decode_hdr (crc : Bytes → Nat) (n t c : Nat) (body : Bytes)
+theorem decode_hdr (fmt : Format) (crc : Bytes → Nat) (n t c : Nat) (body : Bytes)
     (hn : n < 2 ^ 32) (ht : t < 2 ^ 64) (hc : c < 2 ^ 32) :
-    decode crc (le 4 n ++ (le 8 t ++ (le 4 c ++ body))) =
-      if body.length < n then none
-      else if crc (body.take n) = c then some (⟨body.take n, t, c⟩, overhead + n) else none := by
+    decode fmt crc (le 4 n ++ (le 8 t ++ (le 4 c ++ body))) =
+      if fmt = .v2 ∧ n = 0 then none
+      else if body.length < n then none
+      else if crc (covered fmt n t (body.take n)) = c
+        then some (⟨body.take n, t, c⟩, overhead + n) else none := by
   obtain ⟨f1, f2, f3, f4, f5⟩ := hdr_fields n t c body
   unfold decode
   simp only [f1, f2, f3, f4, f5, overhead]
   rw [leVal_le 4 _ (by simpa using hn), leVal_le 8 _ (by simpa using ht), leVal_le 4 _ (by simpa using hc)]
   rw [if_neg (by omega)]
-  by_cases h : body.length < n
-  · rw [if_pos (by omega), if_pos h]
-  · rw [if_neg (by omega), if_neg h]
+  by_cases hz : fmt = .v2 ∧ n = 0
+  · rw [if_pos hz, if_pos hz]
+  · rw [if_neg hz, if_neg hz]
+    by_cases h : body.length < n
+    · rw [if_pos (by omega), if_pos h]
+    · rw [if_neg (by omega), if_neg h]
 
-theorem decode_encode (crc : Bytes → Nat) (e : Entry) (rest : Bytes)
-    (hf : e.Fits) (hv : e.Valid crc) :
-    decode crc (e.encode ++ rest) = some (e, e.size) := by
-  obtain ⟨hl, ht, hc⟩ := hf
+/-- an entry as `from_delta` makes them: fits the field widths, carries the checksum of what
+    the format covers, and (v2) is not empty -/
+def Entry.Good (fmt : Format) (crc : Bytes → Nat) (e : Entry) : Prop :=
+  e.Fits ∧ e.Valid fmt crc ∧ (fmt = .v2 → e.data.length ≠ 0)
+
+instance (fmt : Format) (crc : Bytes → Nat) : DecidablePred (Entry.Good fmt crc) := fun e => by
+  unfold Entry.Good; infer_instance
+
+theorem decode_encode (fmt : Format) (crc : Bytes → Nat) (e : Entry) (rest : Bytes)
+    (hg : e.Good fmt crc) :
+    decode fmt crc (e.encode ++ rest) = some (e, e.size) := by
+  obtain ⟨⟨hl, ht, hc⟩, hv, hne⟩ := hg
   have heq : e.encode ++ rest = le 4 e.data.length ++ (le 8 e.ts ++ (le 4 e.crc ++ (e.data ++ rest))) := by
     simp [Entry.encode]
-  rw [heq, decode_hdr crc _ _ _ _ hl ht hc, if_neg (by simp), List.take_left' rfl]
+  rw [heq, decode_hdr fmt crc _ _ _ _ hl ht hc, if_neg (fun h => hne h.1 h.2), if_neg (by simp),
+    List.take_left' rfl]
   unfold Entry.Valid at hv
   rw [if_pos hv]; rfl
 
 /-- a torn entry (any proper prefix of an encoding) never decodes -/
-theorem decode_torn (crc : Bytes → Nat) (e : Entry) (k : Nat) (hf : e.Fits)
-    (hk : k < e.encode.length) : decode crc (e.encode.take k) = none := by
+theorem decode_torn (fmt : Format) (crc : Bytes → Nat) (e : Entry) (k : Nat) (hf : e.Fits)
+    (hk : k < e.encode.length) : decode fmt crc (e.encode.take k) = none := by
   obtain ⟨hl, ht, hc⟩ := hf
   by_cases h16 : k < 16
   · unfold decode
@@ -80,14 +94,16 @@ theorem decode_torn (crc : Bytes → Nat) (e : Entry) (k : Nat) (hf : e.Fits)
       rw [List.take_append, List.take_of_length_le (by rw [le_length]; omega), le_length]
       rw [List.take_append, List.take_of_length_le (by rw [le_length]; omega), le_length]
       congr 4
-    rw [this, decode_hdr crc _ _ _ _ hl ht hc, if_pos (by rw [List.length_take]; omega)]
-
+    rw [this, decode_hdr fmt crc _ _ _ _ hl ht hc]
+    split
+    · rfl
+    · rw [if_pos (by rw [List.length_take]; omega)]
 
 /-! ## the reader loop -/
 
-def AllOk (crc : Bytes → Nat) (es : List Entry) : Prop := ∀ e ∈ es, e.Fits ∧ e.Valid crc
+def AllOk (fmt : Format) (crc : Bytes → Nat) (es : List Entry) : Prop := ∀ e ∈ es, e.Good fmt crc
 
-instance (crc : Bytes → Nat) (es : List Entry) : Decidable (AllOk crc es) := by
+instance (fmt : Format) (crc : Bytes → Nat) (es : List Entry) : Decidable (AllOk fmt crc es) := by
   unfold AllOk; infer_instance
 
 theorem encs_nil : encs [] = [] := rfl
@@ -95,8 +111,8 @@ theorem encs_cons (e : Entry) (es : List Entry) : encs (e :: es) = e.encode ++ e
 theorem encs_append (a b : List Entry) : encs (a ++ b) = encs a ++ encs b := by
   simp [encs]
 
-theorem decode_size_pos {crc : Bytes → Nat} {bs : Bytes} {e : Entry} {n : Nat}
-    (h : decode crc bs = some (e, n)) : overhead ≤ n ∧ n ≤ bs.length := by
+theorem decode_size_pos {fmt : Format} {crc : Bytes → Nat} {bs : Bytes} {e : Entry} {n : Nat}
+    (h : decode fmt crc bs = some (e, n)) : overhead ≤ n ∧ n ≤ bs.length := by
   unfold decode at h
   split at h
   · cases h
@@ -104,12 +120,14 @@ theorem decode_size_pos {crc : Bytes → Nat} {bs : Bytes} {e : Entry} {n : Nat}
     split at h
     · cases h
     · split at h
-      · cases h; constructor <;> omega
       · cases h
+      · split at h
+        · cases h; constructor <;> omega
+        · cases h
 
 /-- enough fuel = any amount ≥ the number of bytes -/
-theorem entriesAux_fuel (crc : Bytes → Nat) (f : Nat) (bs : Bytes) (h : bs.length ≤ f) :
-    entriesAux crc f bs = entriesAux crc bs.length bs := by
+theorem entriesAux_fuel (fmt : Format) (crc : Bytes → Nat) (f : Nat) (bs : Bytes) (h : bs.length ≤ f) :
+    entriesAux fmt crc f bs = entriesAux fmt crc bs.length bs := by
   induction f using Nat.strongRecOn generalizing bs with
   | _ f ih =>
     cases f with
@@ -124,7 +142,7 @@ theorem entriesAux_fuel (crc : Bytes → Nat) (f : Nat) (bs : Bytes) (h : bs.len
         simp [entriesAux, decode, overhead]
       | succ m =>
         simp only [entriesAux]
-        cases hd : decode crc bs with
+        cases hd : decode fmt crc bs with
         | none => rfl
         | some p =>
           obtain ⟨e, n⟩ := p
@@ -133,11 +151,11 @@ theorem entriesAux_fuel (crc : Bytes → Nat) (f : Nat) (bs : Bytes) (h : bs.len
           have hl : (bs.drop n).length ≤ m := by rw [List.length_drop]; unfold overhead at h1; omega
           rw [ih f (by omega) _ (by omega), ih m (by omega) _ hl]
 
-theorem entries_step (crc : Bytes → Nat) (bs : Bytes) :
-    entries crc bs =
-      match decode crc bs with
+theorem entries_step (fmt : Format) (crc : Bytes → Nat) (bs : Bytes) :
+    entries fmt crc bs =
+      match decode fmt crc bs with
       | none => []
-      | some (e, n) => e :: entries crc (bs.drop n) := by
+      | some (e, n) => e :: entries fmt crc (bs.drop n) := by
   unfold entries
   cases hb : bs.length with
   | zero =>
@@ -146,41 +164,41 @@ theorem entries_step (crc : Bytes → Nat) (bs : Bytes) :
     simp [entriesAux, decode, overhead]
   | succ m =>
     simp only [entriesAux]
-    cases hd : decode crc bs with
+    cases hd : decode fmt crc bs with
     | none => rfl
     | some p =>
       obtain ⟨e, n⟩ := p
       have ⟨h1, h2⟩ := decode_size_pos hd
       simp only
-      rw [entriesAux_fuel crc m _ (by rw [List.length_drop]; unfold overhead at h1; omega)]
+      rw [entriesAux_fuel fmt crc m _ (by rw [List.length_drop]; unfold overhead at h1; omega)]
 
 /-- intact entries are all read; reading then continues on what follows -/
-theorem entries_encs_append (crc : Bytes → Nat) (es : List Entry) (tail : Bytes)
-    (hok : AllOk crc es) : entries crc (encs es ++ tail) = es ++ entries crc tail := by
+theorem entries_encs_append (fmt : Format) (crc : Bytes → Nat) (es : List Entry) (tail : Bytes)
+    (hok : AllOk fmt crc es) : entries fmt crc (encs es ++ tail) = es ++ entries fmt crc tail := by
   induction es with
   | nil => simp [encs]
   | cons e es ih =>
     have he := hok e (by simp)
-    rw [encs_cons, List.append_assoc, entries_step, decode_encode crc e _ he.1 he.2]
+    rw [encs_cons, List.append_assoc, entries_step, decode_encode fmt crc e _ he]
     simp only
     rw [Entry.size, ← encode_length, List.drop_left' rfl, ih (fun x hx => hok x (by simp [hx]))]
     rfl
 
-theorem entries_of_decode_none (crc : Bytes → Nat) (bs : Bytes) (h : decode crc bs = none) :
-    entries crc bs = [] := by
+theorem entries_of_decode_none (fmt : Format) (crc : Bytes → Nat) (bs : Bytes) (h : decode fmt crc bs = none) :
+    entries fmt crc bs = [] := by
   rw [entries_step, h]
 
-theorem entries_encs (crc : Bytes → Nat) (es : List Entry) (hok : AllOk crc es) :
-    entries crc (encs es) = es := by
-  have := entries_encs_append crc es [] hok
-  simpa [entries_of_decode_none crc [] (by simp [decode, overhead])] using this
+theorem entries_encs (fmt : Format) (crc : Bytes → Nat) (es : List Entry) (hok : AllOk fmt crc es) :
+    entries fmt crc (encs es) = es := by
+  have := entries_encs_append fmt crc es [] hok
+  simpa [entries_of_decode_none fmt crc [] (by simp [decode, overhead])] using this
 
 
 /-- every prefix of a sequence of intact entries reads as a prefix of the entries -/
-theorem entries_take_encs (crc : Bytes → Nat) (es : List Entry) (hok : AllOk crc es) (n : Nat) :
-    ∃ k, entries crc ((encs es).take n) = es.take k := by
+theorem entries_take_encs (fmt : Format) (crc : Bytes → Nat) (es : List Entry) (hok : AllOk fmt crc es) (n : Nat) :
+    ∃ k, entries fmt crc ((encs es).take n) = es.take k := by
   induction es generalizing n with
-  | nil => exact ⟨0, by simp [encs, entries_of_decode_none crc [] (by simp [decode, overhead])]⟩
+  | nil => exact ⟨0, by simp [encs, entries_of_decode_none fmt crc [] (by simp [decode, overhead])]⟩
   | cons e es ih =>
     have he := hok e (by simp)
     rw [encs_cons, List.take_append]
@@ -188,65 +206,65 @@ theorem entries_take_encs (crc : Bytes → Nat) (es : List Entry) (hok : AllOk c
     · refine ⟨0, ?_⟩
       have h0 : n - e.encode.length = 0 := by omega
       rw [h0, List.take_zero, List.append_nil,
-        entries_of_decode_none crc _ (decode_torn crc e n he.1 hn)]
+        entries_of_decode_none fmt crc _ (decode_torn fmt crc e n he.1 hn)]
       rfl
     · obtain ⟨k, hk⟩ := ih (fun x hx => hok x (by simp [hx])) (n - e.encode.length)
       refine ⟨k + 1, ?_⟩
-      rw [List.take_of_length_le (by omega), entries_step, decode_encode crc e _ he.1 he.2]
+      rw [List.take_of_length_le (by omega), entries_step, decode_encode fmt crc e _ he]
       simp only
       rw [Entry.size, ← encode_length, List.drop_left' rfl, hk]
       rfl
 
 /-! ## file header -/
 
-theorem header_length (seq : Nat) : (header seq).length = overhead := by
+theorem header_length (fmt : Format) (seq : Nat) : (header fmt seq).length = overhead := by
   simp [header, magic, le_length, overhead]
 
-theorem openFile_header (seq : Nat) (rest : Bytes) (hs : seq < 2 ^ 64) :
-    openFile (header seq ++ rest) = some seq := by
+theorem openFile_header (fmt : Format) (seq : Nat) (rest : Bytes) (hs : seq < 2 ^ 64) :
+    openFile fmt (header fmt seq ++ rest) = some seq := by
   unfold openFile
-  have hl : (header seq ++ rest).length = 16 + rest.length := by
+  have hl : (header fmt seq ++ rest).length = 16 + rest.length := by
     rw [List.length_append, header_length, overhead]
   rw [if_neg (by rw [hl]; unfold overhead; omega)]
-  have h1 : (header seq ++ rest).take 4 = magic := by
+  have h1 : (header fmt seq ++ rest).take 4 = magic := by
     unfold header; rw [List.append_assoc]; exact List.take_left' rfl
-  have h2 : ((header seq ++ rest).drop 4).head? = some 1 := by
+  have h2 : ((header fmt seq ++ rest).drop 4).head? = some fmt.version := by
     unfold header; rw [List.append_assoc, List.drop_left' (by rfl)]; rfl
-  have h3 : ((header seq ++ rest).drop 8).take 8 = le 8 seq := by
-    have : header seq ++ rest = (magic ++ [1, 0, 0, 0]) ++ (le 8 seq ++ rest) := by
+  have h3 : ((header fmt seq ++ rest).drop 8).take 8 = le 8 seq := by
+    have : header fmt seq ++ rest = (magic ++ [fmt.version, 0, 0, 0]) ++ (le 8 seq ++ rest) := by
       simp [header]
     rw [this, List.drop_left' (by rfl)]
     exact List.take_left' (le_length _ _)
   rw [if_neg (by rw [h1]; simp), if_neg (by rw [h2]; simp), h3, leVal_le 8 _ (by simpa using hs)]
 
-theorem openFile_short (bs : Bytes) (h : bs.length < overhead) : openFile bs = none := by
+theorem openFile_short (fmt : Format) (bs : Bytes) (h : bs.length < overhead) : openFile fmt bs = none := by
   unfold openFile; rw [if_pos h]
 
-theorem fileEntries_image (crc : Bytes → Nat) (seq : Nat) (tail : Bytes)
+theorem fileEntries_image (fmt : Format) (crc : Bytes → Nat) (seq : Nat) (tail : Bytes)
     (hs : seq < 2 ^ 64) :
-    fileEntries crc (header seq ++ tail) = entries crc tail := by
+    fileEntries fmt crc (header fmt seq ++ tail) = entries fmt crc tail := by
   unfold fileEntries readFile
-  rw [openFile_header seq _ hs]
+  rw [openFile_header fmt seq _ hs]
   simp only
-  rw [← header_length seq, List.drop_left' rfl]
+  rw [← header_length fmt seq, List.drop_left' rfl]
 
-theorem fileEntries_fileImage (crc : Bytes → Nat) (seq : Nat) (es : List Entry)
-    (hs : seq < 2 ^ 64) (hok : AllOk crc es) : fileEntries crc (fileImage seq es) = es := by
+theorem fileEntries_fileImage (fmt : Format) (crc : Bytes → Nat) (seq : Nat) (es : List Entry)
+    (hs : seq < 2 ^ 64) (hok : AllOk fmt crc es) : fileEntries fmt crc (fileImage fmt seq es) = es := by
   unfold fileImage
-  rw [fileEntries_image crc seq _ hs, entries_encs crc es hok]
+  rw [fileEntries_image fmt crc seq _ hs, entries_encs fmt crc es hok]
 
-theorem fileEntries_take (crc : Bytes → Nat) (seq : Nat) (es : List Entry)
-    (hs : seq < 2 ^ 64) (hok : AllOk crc es) (n : Nat) :
-    ∃ k, fileEntries crc ((fileImage seq es).take n) = es.take k := by
+theorem fileEntries_take (fmt : Format) (crc : Bytes → Nat) (seq : Nat) (es : List Entry)
+    (hs : seq < 2 ^ 64) (hok : AllOk fmt crc es) (n : Nat) :
+    ∃ k, fileEntries fmt crc ((fileImage fmt seq es).take n) = es.take k := by
   by_cases hn : n < overhead
   · refine ⟨0, ?_⟩
     unfold fileEntries readFile
-    rw [openFile_short _ (by rw [List.length_take]; omega)]
+    rw [openFile_short fmt _ (by rw [List.length_take]; omega)]
     rfl
   · unfold fileImage
     rw [List.take_append, List.take_of_length_le (by rw [header_length]; omega),
-      fileEntries_image crc seq _ hs, header_length]
-    exact entries_take_encs crc es hok _
+      fileEntries_image fmt crc seq _ hs, header_length]
+    exact entries_take_encs fmt crc es hok _
 
 /-! ## truncation -/
 
@@ -260,12 +278,12 @@ theorem le_maxTs {es : List Entry} {e : Entry} (h : e ∈ es) : e.ts ≤ maxTs e
     · exact Nat.le_trans (ih h') (Nat.le_max_right _ _)
 
 /-- a file that `truncate_before(T)` may delete contributes no entry stamped later than `T` -/
-theorem deletable_filter (crc : Bytes → Nat) (T : Nat) (bs : Bytes)
-    (h : deletable crc T bs = true) :
-    (fileEntries crc bs).filter (fun e => decide (T < e.ts)) = [] := by
+theorem deletable_filter (fmt : Format) (crc : Bytes → Nat) (T : Nat) (bs : Bytes)
+    (h : deletable fmt crc T bs = true) :
+    (fileEntries fmt crc bs).filter (fun e => decide (T < e.ts)) = [] := by
   unfold deletable at h
   unfold fileEntries
-  cases hr : readFile crc bs with
+  cases hr : readFile fmt crc bs with
   | none => rfl
   | some es =>
     rw [hr] at h
@@ -279,11 +297,11 @@ theorem deletable_filter (crc : Bytes → Nat) (T : Nat) (bs : Bytes)
       simp only [decide_eq_true_eq]
       omega
 
-theorem recoverAll_cons (crc : Bytes → Nat) (p : Nat × Bytes) (img : Image) :
-    recoverAll crc (p :: img) = fileEntries crc p.2 ++ recoverAll crc img := rfl
+theorem recoverAll_cons (fmt : Format) (crc : Bytes → Nat) (p : Nat × Bytes) (img : Image) :
+    recoverAll fmt crc (p :: img) = fileEntries fmt crc p.2 ++ recoverAll fmt crc img := rfl
 
-theorem recoverAll_append (crc : Bytes → Nat) (a b : Image) :
-    recoverAll crc (a ++ b) = recoverAll crc a ++ recoverAll crc b := by
+theorem recoverAll_append (fmt : Format) (crc : Bytes → Nat) (a b : Image) :
+    recoverAll fmt crc (a ++ b) = recoverAll fmt crc a ++ recoverAll fmt crc b := by
   simp [recoverAll]
 
 end RedisVerif.Wal
